@@ -467,23 +467,28 @@ structure Sess where
   stable : Option Nat := none
   deriving Repr
 
+/-- the buffer-level effect of one operation -/
+def opRun (b : Buf) (lastp : Option Nat) (op : Op) : Out × Buf :=
+  match op with
+  | .getLine => getLine b
+  | .fetchLine => fetchLine b false
+  | .fetchLineStr => fetchLine b true
+  | .getToken sep => getToken b sep
+  | .fetchToken sep => fetchToken b sep false
+  | .fetchTokenStr sep => fetchToken b sep true
+  | .read k => read b k
+  | .get => get b
+  | .set k => set b lastp k
+  | .getOffset => ({ st := .ok }, b)
+  | .setOffset o => setOffset b o
+  | .setAnchor o => ({ st := (setAnchor b o).1 }, (setAnchor b o).2)
+  | .setStableAnchor o => ({ st := (setStableAnchor b o).1 }, (setStableAnchor b o).2)
+  | .raiseAnchor o => ({ st := .ok }, raiseAnchor b o)
+
 def Sess.step (s : Sess) (op : Op) : Out × Sess :=
-  let (o, b') : Out × Buf :=
-    match op with
-    | .getLine => getLine s.b
-    | .fetchLine => fetchLine s.b false
-    | .fetchLineStr => fetchLine s.b true
-    | .getToken sep => getToken s.b sep
-    | .fetchToken sep => fetchToken s.b sep false
-    | .fetchTokenStr sep => fetchToken s.b sep true
-    | .read k => read s.b k
-    | .get => get s.b
-    | .set k => set s.b s.lastp k
-    | .getOffset => ({ st := .ok }, s.b)
-    | .setOffset o => setOffset s.b o
-    | .setAnchor o => let (st, b) := setAnchor s.b o; ({ st := st }, b)
-    | .setStableAnchor o => let (st, b) := setStableAnchor s.b o; ({ st := st }, b)
-    | .raiseAnchor o => ({ st := .ok }, raiseAnchor s.b o)
+  let r := opRun s.b s.lastp op
+  let o := r.1
+  let b' := r.2
   let stable' : Option Nat :=
     match op with
     | .setStableAnchor _ => if o.st = .ok ∧ b'.hasfp then (match s.stable with | none => some b'.memgen | some g => some g) else s.stable
